@@ -223,11 +223,17 @@ check('C11',
       'written and are constructor keywords. On the implementation every generated portfolio (all asset types of the generator in all '
       'parameter forms, scaled assets with own life time, structured assets, order books; grids with freq != unit, three zones) plus '
       'Plant, CHPAsset, LinkedAsset objects are saved, loaded and saved again, fresh and after a set-up: JSON equal, own grid equal '
-      '(points, zone, unit, dt), identical problems on the original and on a second grid.',
+      '(points, zone, unit, dt), identical problems on the original and on a second grid (dates also as numpy arrays of several units, '
+      'date indices, stamps in UTC / fixed offsets; generated plants and CHP units). Value layer (hand-written model Codec.v of '
+      'json_serialize_objects / json_deserialize_objects for numbers, strings, dates, naive and zone-aware stamps, numeric arrays, date '
+      'arrays of any unit, date indices, lists and dictionaries to any depth): C11_value_round_trip (loading what was saved gives the '
+      'normal form: date arrays in nanoseconds, all else unchanged), C11_save_load_save (saving the loaded object reproduces the same '
+      'JSON), C11_load_is_stable; per instance the text EAO writes is compared with ser v, the object EAO loads with deser of that '
+      'text and with norm v, and the second text with the first.',
       TB + 'The translator is trusted to read the sources correctly (fails closed on constructs it does not interpret: recorded as '
-      'c_problems and make the class not loadable). The JSON text layer and float repr round trip are trusted. A value-level codec '
-      'theorem is not part of this check.',
-      'Coq proof over a model generated from the source (ast translator) + round-trip oracle on the implementation', 'DESIGN.md 4 C11')
+      'c_problems and make the class not loadable). The text form of a time stamp / day (strftime / strptime) and the float repr round '
+      'trip are represented by leaves of the model and exercised by the correspondence run only.',
+      'Coq proof over a model generated from the source (ast translator) + hand-written codec model with correspondence + round-trip oracle on the implementation', 'DESIGN.md 4 C11')
 check('C06',
       'PARTIAL proof. Proved for any number of steps and any durations (Props/C06.v, rows as Plant.v emits them, row shapes proved): the '
       'on/off patterns admitting start flags that satisfy the start and run-time rows are EXACTLY those in which every run begun inside '
